@@ -45,6 +45,13 @@ DateCases ==
   {[sd |-> "value", special |-> TRUE, v |-> [k |-> "date", days |-> 16847], obs |-> DateObs("date", "2016-02-16", Probes)],
    [sd |-> "value", special |-> TRUE, v |-> [k |-> "datetime", inst |-> 1455616800, off |-> 3600],
     obs |-> DateObs("date time", "2016-02-16 11:00:00 +0100", Probes)]} \cup
+  \* strings of white space beyond ASCII (ideographic space, no-break space, vertical tab, a mix), as code points: blank, not empty,
+  \* truthy, equal to `blank` and to `true` only - through every view, the Rust String's own among them
+  {[sd |-> "value", special |-> TRUE, v |-> [k |-> "str", s |-> cs],
+    obs |-> [type_name |-> "string", render |-> [s |-> cs], truthy |-> TRUE, default |-> FALSE, empty |-> FALSE, blank |-> TRUE,
+             is_nil |-> FALSE, is_scalar |-> TRUE, is_array |-> FALSE, is_object |-> FALSE, size |-> 0 - 1,
+             eq |-> [i \in 1..Len(Probes) |-> Probes[i] \in {BoolV(TRUE), StateV("blank")}]]] :
+     cs \in {<<12288>>, <<160>>, <<11>>, <<32, 12288, 9>>}} \cup
   \* sub-second values: the printed form keeps the fraction through every view and conversion
   {[sd |-> "value", special |-> TRUE, v |-> [k |-> "datetime", text |-> t], obs |-> DateObs("date time", t, Probes)] :
      t \in {"2016-02-16 11:00:00.000001 +0100", "2016-02-16 11:00:00.5 +0100", "2016-02-16 11:00:00.000000001 +0000", "2016-02-16 11:00:00.123456789 -0330"}}
